@@ -1237,6 +1237,55 @@ fn gen_big(r: &mut Rng, n: usize, out: &mut dyn Write) {
     }
 }
 
+/// `SubTimeline` driven directly (the public single-property API the derive's output is built on): arbitrary index
+/// hints — exact, one ahead, stale, out of range —, times outside [0,1], keyframes past 100 %, start override on and off.
+/// C10 at this level: a substituted start value shows only while the first frame bounds the evaluation — with the
+/// override disabled never, and from the property's second frame on never, whatever hint (exact or one ahead) is given.
+fn gen_sub(r: &mut Rng, n: usize, out: &mut dyn Write) {
+    for _ in 0..n {
+        let int = r.chance(1, 4);
+        let nkf = 1 + r.below(7) as usize;
+        let mut ps: Vec<f32> = Vec::new();
+        while ps.len() < nkf {
+            let p = match r.below(8) { 0 => 0.0, 1 => 1.0, 2 => 1.5, 3 => r.unit_f32(), _ => r.below(17) as f32 / 16.0 };
+            if !ps.contains(&p) { ps.push(p); }
+        }
+        ps.sort_by(|a, c| a.total_cmp(c));
+        let vt = |r: &mut Rng| if int { (r.below(2001) as i64 - 1000).to_string() } else { b((r.below(4001) as f32 - 2000.0) * 0.25) };
+        let present: Vec<bool> = (0..nkf).map(|_| r.chance(3, 4)).collect();
+        let mut toks = Vec::new();
+        for i in 0..nkf {
+            toks.push(b(ps[i]));
+            toks.push(if r.chance(1, 3) { easing_tok(r, false) } else { "-".into() });
+            toks.push(if present[i] { vt(r) } else { "-".into() });
+        }
+        let dflt = vt(r);
+        let e0 = easing_tok(r, false);
+        let body = format!("{} {} {} {} {}", if int { "i" } else { "f" }, dflt, e0, nkf, toks.join(" "));
+        writeln!(out, "sub 1 {}", body).unwrap();
+        writeln!(out, "sub 2 {}", body).unwrap();
+        let ov = vt(r);
+        writeln!(out, "subov 1 {}", ov).unwrap();
+        // the property's own frames: a synthetic 0 % frame if its first keyframe is later
+        let data: Vec<f32> = (0..nkf).filter(|i| present[*i]).map(|i| ps[i]).collect();
+        let f1: Option<f32> = if data.is_empty() { None } else if data[0] > 0.0 { Some(data[0]) } else if data.len() > 1 { Some(data[1]) } else if data[0] < 1.0 { Some(1.0) } else { None };
+        for _ in 0..16 {
+            let t = match r.below(8) { 0 => -0.25, 1 => 1.7, 2 => 1.0, 3 => 0.0, 4 => r.pick(&ps), 5 => r.unit_f32() * 1.5, _ => r.below(33) as f32 / 32.0 };
+            let tc = t.clamp(0.0, 1.0);
+            let exact_of = |x: f32| -> usize { (0..nkf).filter(|i| ps[*i] <= x).last().unwrap_or(0) };
+            let (he, hc) = (exact_of(t), exact_of(tc));
+            let hint = match r.below(8) { 0 | 1 | 2 => hc, 3 => he, 4 => hc + 1, 5 => he + 1, 6 => r.below(nkf as u64 + 1) as usize, _ => hc.saturating_sub(1) };
+            let ovr = r.chance(2, 3);
+            writeln!(out, "subat 1 {} {} {}", b(t), hint, ovr as u8).unwrap();
+            writeln!(out, "subat 2 {} {} {}", b(t), hint, ovr as u8).unwrap();
+            let truthful = (hint == hc || hint == hc + 1 || hint == he || hint == he + 1) && hint < nkf;
+            if !ovr || (truthful && f1.map(|f| tc >= f).unwrap_or(false)) {
+                writeln!(out, "# eq C10 1 2").unwrap();
+            }
+        }
+    }
+}
+
 /// frame-rate independence: the same animator driven by a partition of an interval and by the whole
 /// interval at once (exact binary step sizes), interleaved with state changes
 fn gen_anim6(r: &mut Rng, n: usize, out: &mut dyn Write) {
@@ -1406,6 +1455,7 @@ pub fn generate(suite: &str, seed: u64, n: usize, out: &mut dyn Write) {
         "tl" => gen_tl(&mut r, n, out),
         "tlw" => gen_tlw(&mut r, n, out),
         "big" => gen_big(&mut r, n, out),
+        "sub" => gen_sub(&mut r, n, out),
         "merged" => gen_merged(&mut r, n, out),
         "anim" => gen_anim(&mut r, n, out),
         "anim6" => gen_anim6(&mut r, n, out),
